@@ -125,8 +125,10 @@ MORE['C20'] = dict(
     technique='Lean 4 theorems about the hashed byte string of a reinit file (field order regenerated from the source; every single-field edit changes it) composed with C08 (a node is a function of the messages of its round) and C12 (same mnemonic, same operations => same machine) + re-initialisation of real ceremonies on fresh nodes and machines (reinitdiff)',
     text=("Proof, partial. lean/Dc4bcVerif/Props/C20.lean over Model/ReinitHash.lean: order_matches_source (the model concatenates the fields CalcStartReInitDKGMessageHash writes, in its order: kernel-evaluated over the generated list), "
           "edit_dkg_id, edit_threshold, edit_participant with encP_new_key/old_key/dkg_key/name, edit_message with encM_data/sig/recipient/event/sender/round/offset (EVERY single-field edit of ANY participant or message, at any position, of any round, "
-          "changes the hashed string; %d assumed injective), not_injective_across_fields (observation: no separators, a two-field edit can keep the string). State and shares: C08 replay_eq_live / round_state_function_of_round_log and C12 same_seed_same_machine "
-          "(the re-initialisation feeds the round's messages through the same handler with the same verification, the machines replay the same operations). Not proved: SHA-1, the glue of reinitDKG and handleReinitDKG. Tie: reinitdiff re-initialises real ceremonies "
+          "changes the hashed string; %d assumed injective), not_injective_across_fields (observation: no separators, a two-field edit can keep the string). State: Props/C20Node.lean over the Lean model of reinitDKG (tied by nodediff on real dumps, plain and adapted): reinit_loop_eq_consume "
+          "(replaying a dump without 0.1.4 patches gives the round the view a node gets by consuming the same messages from the board: same handler, same verification), with C08 round_state_function_of_round_log the view the original nodes had; "
+          "reinit_other_rounds_untouched (whatever the dump contains, every other round is untouched), reinit_existing_round_noop, reinit_keys (the stored round is the replayed one with the new communication keys, under dkg_id). "
+          "Shares: C12 same_seed_same_machine (the machines replay the same operations). Not proved: SHA-1, handleReinitDKG (airgapped side), the effect of the unsigned 0.1.4 patches (exempt from verification by design). Tie: reinitdiff re-initialises real ceremonies "
           "(with signing batches, junk and a forged message on the original board; with and without the 0.1.4 adaptation) and checks state, shares, a signature under the original group key, the hash on every node and under every single-field edit; "
           "nodediff probes crafted reinit messages against existing rounds. Outside the quantifier and not handled by the tool: two key-generation rounds interleaved in one dump (GenerateReDKGMessage takes the last id and both participant lists)."),
     ref='7 C20', note=NODE_NOTE + ' ' + AIR_NOTE)
